@@ -609,6 +609,8 @@ func (u *Universe) seqAxioms(s *Sort) string {
 (assert (forall ((a $S) (b $S) (x $E)) (! (= (concat_$e a (snoc_$e b x)) (snoc_$e (concat_$e a b) x)) :pattern ((concat_$e a (snoc_$e b x))))))
 (assert (forall ((s $S) (i Int) (x $E)) (! (= (len_$e (upd_$e s i x)) (len_$e s)) :pattern ((upd_$e s i x)))))
 (assert (forall ((s $S) (i Int) (x $E) (j Int)) (! (=> (and (<= 0 j) (< j (len_$e s))) (= (at_$e (upd_$e s i x) j) (ite (= i j) x (at_$e s j)))) :pattern ((at_$e (upd_$e s i x) j)))))
+(assert (forall ((s $S) (i Int) (x $E)) (! (=> (and (<= 0 i) (< i (len_$e s))) (= (take_$e (upd_$e s i x) (+ i 1)) (snoc_$e (take_$e s i) x))) :pattern ((take_$e (upd_$e s i x) (+ i 1))))))
+(assert (forall ((s $S) (i Int) (x $E) (k Int)) (! (=> (and (<= 0 k) (<= k i)) (= (take_$e (upd_$e s i x) k) (take_$e s k))) :pattern ((take_$e (upd_$e s i x) k)))))
 (assert (forall ((s $S) (a Int) (b Int)) (! (=> (and (<= 0 a) (<= a b) (<= b (len_$e s))) (= (len_$e (sub_$e s a b)) (- b a))) :pattern ((sub_$e s a b)))))
 (assert (forall ((s $S) (a Int) (b Int) (k Int)) (! (=> (and (<= 0 a) (<= a b) (<= b (len_$e s)) (<= 0 k) (< k (- b a))) (= (at_$e (sub_$e s a b) k) (at_$e s (+ a k)))) :pattern ((at_$e (sub_$e s a b) k)))))
 (assert (forall ((s $S)) (! (= (sub_$e s 0 (len_$e s)) s) :pattern ((sub_$e s 0 (len_$e s))))))
